@@ -520,6 +520,21 @@ func main() {
 					}
 				}
 			}
+			// ... and from the remaining method of the Provider interface the proxy calls while a session is built (the e-mail
+			// lookup of providers whose token carries none) and from every provider's constructor (restrictions wired as closures:
+			// Google groups, GitHub orgs / teams, Bitbucket teams / repositories are reached through fields, not by name)
+			for _, x := range bySimple["GetEmailAddress"] {
+				push(x)
+			}
+			for _, x := range all {
+				simple := x.name
+				if i := strings.LastIndex(simple, "."); i >= 0 {
+					simple = simple[i+1:]
+				}
+				if strings.HasPrefix(simple, "New") && strings.HasSuffix(simple, "Provider") {
+					push(x)
+				}
+			}
 			for len(queue) > 0 {
 				x := queue[0]
 				queue = queue[1:]
